@@ -50,7 +50,9 @@ def run_search(prop, timeout=1500, extra_env=None, want_output=False):
             with open(os.path.join(d, sp["target"]), "a") as f:
                 f.write("\n\n" + body + "\n")
             cmd = ["cargo", "test", "--release", "--offline", "--lib", "verif_search", "--", "--nocapture", "--test-threads", "1"]
-        env = dict(os.environ, CARGO_NET_OFFLINE="true", RUST_BACKTRACE="0", **sp.get("env", {}))
+        # optimised build, but with the arithmetic semantics the verification uses and the test suite runs under:
+        # an overflow is a panic
+        env = dict(os.environ, CARGO_NET_OFFLINE="true", RUST_BACKTRACE="0", RUSTFLAGS="-C overflow-checks=on", **sp.get("env", {}))
         env.update(extra_env or {})
         try:
             p = subprocess.run(cmd, cwd=d, capture_output=True, text=True, timeout=timeout, env=env)
